@@ -384,6 +384,53 @@ Definition op_open (s : st) : outcome * st :=
   | f :: _ => op_apply s2 f false
   end.
 
+(* ---- log placement: processLTXStreamFrame store.go:1508, WriteLTXFileAt db.go:2387, EnforceRetention db.go:3495 ---- *)
+Definition with_dir (s : st) (dir : list ltxrec) : st :=
+  mkSt (writeable s) (lockpg s) (dbfile s) (pageN s) (wal_mode s) (chk_pages s) (chk_blocks s) (wal_chk s) (wal_latest s)
+       (wal_file s) (dirty s) (txid s) (chk s) dir.
+Definition is_snapshot (f : ltxrec) : bool := l_min f =? 1.
+Definition extends_pos (s : st) (f : ltxrec) : bool := (l_min f =? txid s + 1) && (l_pre f =? chk s).
+
+(* a replica receives a file on the stream: position check, placement (a snapshot replaces the
+   whole directory), apply with Exit on failure *)
+Definition op_receive (s : st) (f : ltxrec) : outcome * st :=
+  if negb (is_snapshot f) && negb (extends_pos s f) then (Failed, s)
+  else op_apply (with_dir s (if is_snapshot f then [f] else ltxdir s ++ [f])) f true.
+
+(* the forwarding endpoint: WriteLTXFileAt validates header and body before renaming; then apply *)
+Definition op_forward (s : st) (f : ltxrec) (body_ok : bool) : outcome * st :=
+  if negb (is_snapshot f) && negb (extends_pos s f) then (Failed, s)
+  else if negb body_ok then (Failed, s)
+  else op_apply (with_dir s (if is_snapshot f then [f] else ltxdir s ++ [f])) f true.
+
+(* retention sweep: [old f] = modification time before the cut-off *)
+Fixpoint retention (dir : list ltxrec) (old : ltxrec -> bool) (backup : bool) (hwm : N) : list ltxrec :=
+  match dir with
+  | [] => []
+  | f :: r =>
+    match r with
+    | [] => [f]                                             (* the newest file is never removed *)
+    | _ => if old f && (negb backup || (l_max f <? hwm))
+           then retention r old backup hwm
+           else f :: retention r old backup hwm
+    end
+  end.
+Definition op_retention (s : st) (old : ltxrec -> bool) (backup : bool) (hwm : N) : outcome * st :=
+  (Done, with_dir s (retention (ltxdir s) old backup hwm)).
+
+(* the chain predicate of C09 *)
+Fixpoint linked (dir : list ltxrec) : Prop :=
+  match dir with
+  | f :: r => match r with
+              | g :: _ => l_min g = l_max f + 1 /\ l_pre g = l_post f /\ linked r
+              | [] => True
+              end
+  | [] => True
+  end.
+Definition ends_at (dir : list ltxrec) (t c : N) : Prop :=
+  match rev dir with f :: _ => l_max f = t /\ l_post f = c | [] => t = 0 end.
+Definition Chain (s : st) : Prop := linked (ltxdir s) /\ ends_at (ltxdir s) (txid s) (chk s).
+
 (* ---- the op alphabet driven by the harness ---- *)
 Inductive op :=
 | OWrite (pgno : N) (p : pg)
@@ -396,7 +443,9 @@ Inductive op :=
 | OCheckpoint
 | OOpen
 | ODrop
-| OSetWriteable (b : bool).
+| OSetWriteable (b : bool)
+| OReceive (f : ltxrec)
+| ORetention (ages : list bool) (backup : bool) (hwm : N).
 
 Definition set_writeable (s : st) (b : bool) : st :=
   mkSt b (lockpg s) (dbfile s) (pageN s) (wal_mode s) (chk_pages s) (chk_blocks s) (wal_chk s) (wal_latest s)
@@ -415,6 +464,11 @@ Definition step (s : st) (o : op) : outcome * st :=
   | OOpen => op_open s
   | ODrop => op_drop s
   | OSetWriteable b => (Done, set_writeable s b)
+  | OReceive f => op_receive s f
+  | ORetention ages backup hwm =>
+      (* ages: one flag per file of the directory, in order; a file is identified by its max TXID *)
+      let tagged := combine (map l_max (ltxdir s)) ages in
+      op_retention s (fun f => match alookup (l_max f) tagged with Some b => b | None => false end) backup hwm
   end.
 
 Definition init (lock : N) : st := mkSt true lock [] 0 false [] [] [] [] [] [] 0 0 [].
@@ -428,8 +482,13 @@ Fixpoint run_group (s : st) (ops : list op) : N * st :=
   | o :: r => let '(oc, s') := step s o in
               match oc with Done => run_group s' r | _ => (ocode oc, s') end
   end.
+Definition ltx_obs (s : st) : list N :=
+  match rev (ltxdir s) with
+  | f :: _ => [l_min f; l_max f; l_pre f; l_post f; l_commit f] ++ map fst (l_pages f) ++ map (fun kv => pg_h (snd kv)) (l_pages f)
+  | [] => []
+  end.
 Definition obs_of (code : N) (s : st) : list N :=
-  [code; txid s; chk s; pageN s; (if wal_mode s then 1 else 0); lenN (ltxdir s)].
+  [code; txid s; chk s; pageN s; (if wal_mode s then 1 else 0); lenN (ltxdir s)] ++ ltx_obs s.
 Fixpoint run_hist (s : st) (groups : list (list op)) : list (list N) :=
   match groups with
   | [] => []
